@@ -56,7 +56,7 @@ def run(ctx):
                        'predicates to a cell (scale order, difference fits u64, sign); the base must be the correctly oriented digit comparison (or the scale order '
                        'when the difference overflows) and the reversal parity must match the sign, so no magnitude ordering is returned without the sign correction; '
                        'checked_diff is checked against its contract cell by cell.  Decides "no comparison panics or depends on build profile" and the shape of the '
-                       'ordering table; SCAN-GAP: in the digit loops no element pulled with next() is skipped while its iterator is consumed further.  Does NOT decide the arithmetic of the digit-level strategies inside compare_scaled_biguints / check_equality_bigdecimal_ref.')
+                       'ordering table; SCAN-GAP: in the digit loops no element pulled with next() is skipped while its iterator is consumed further.  ZIP-LENGTH: every element-wise zip comparison is dominated by a test that the two lengths are equal.  Does NOT decide the arithmetic of the digit-level strategies inside compare_scaled_biguints / check_equality_bigdecimal_ref.')
     F = ctx.facts('default', 'dbg')
     ents = common.cmp_entries(F)
     rep.entries['comparison impls'] = [e.key for e in ents]
@@ -74,6 +74,8 @@ def run(ctx):
     ne = ordertable.eq_table(rep, Fr)
     ng = scangap.check(rep, Fr, Fr.reach(common.cmp_entries(Fr)))
     rep.floor('digit loops advanced with next()', ng, 2)
+    from rules import ziplen
+    ziplen.check(rep, Fr, Fr.reach(common.cmp_entries(Fr)))
     from rules import limbmod
     _Fl = Fr
     nlm = limbmod.check(rep, _Fl, [f.name for f in _Fl.real_fns()])
